@@ -52,7 +52,10 @@ def spec_wrap(o):
     probes = sum(1 for k, _ in ops if k != 1)
     takes = sum(1 for k, _ in log if k == 0)
     if takes != probes:
-        return "%d probes (writes/scans) were charged %d times to the limiter" % (probes, takes)
+        kinds = {0: "successful", 1: "EAGAIN", 2: "ECONNRESET", 3: "timeout", 4: "other-error", 5: "wrapped-EAGAIN"}
+        reads = sorted({kinds.get(v, "?") for k, v in ops if k == 1})
+        return ("%d probes (writes/scans)%s were charged %d times to the limiter"
+                % (probes, " and %d reads (%s)" % (len([1 for k, _ in ops if k == 1]), ", ".join(reads)) if reads else "", takes))
     if o.get("takes") != takes:
         return "the limiter counted %s Takes, the log has %d" % (o.get("takes"), takes)
     prev = None
@@ -65,7 +68,7 @@ def spec_wrap(o):
     if prev == 0:
         return "a Take was not followed by its probe"
     deleg = [(k, v) for k, v in log if k != 0]
-    want = [({0: 1, 1: 2, 2: 3}[k], v) for k, v in ops]
+    want = [({0: 1, 1: 2, 2: 3}[k], 0 if k == 1 else v) for k, v in ops]   # a read's second field is its result class
     if deleg != want:
         return "the delegate did not see exactly the caller's operations"
     if not o.get("ret_ok"):
@@ -92,6 +95,33 @@ def spec_eng(o):
             return ("application scan --rate %s, %d workers: probe number %d started %d ns after the scan began; the rate "
                     "allows no less than (%d-%d)*%d = %d ns" % (o["rate_str"], o["workers"], j + 1, t, j, SLACK, p,
                                                                 (j - SLACK) * p))
+    if o.get("class") == "eng/slow-then-fast":
+        # every window of consecutive probe starts; three more intervals are allowed for the delay between Take
+        # returning in a worker and the probe start being recorded (concurrent workers, real clock)
+        ts = o["starts"]
+        for i in range(len(ts)):
+            for j in range(i + 1, len(ts)):
+                if ts[j] - ts[i] < (j - i - SLACK - 3) * p:
+                    return ("application scan --rate %s, %d workers, first %d targets slow then fast ones: %d consecutive "
+                            "probes started within %d ns; the rate allows no less than (%d-1-%d)*%d = %d ns"
+                            % (o["rate_str"], o["workers"], o["workers"], j - i + 1, ts[j] - ts[i], j - i + 1, SLACK, p,
+                               (j - i - SLACK) * p))
+    return None
+
+
+def spec_rxlat(o):
+    """Real sender+receiver around the rate-limited ReadWriter with the real limiter at 1/400ms; the source fails
+    temporarily (quiet wire) and then has one frame: the processor must get it without waiting for the limiter."""
+    if o.get("err"):
+        return o["err"]
+    on_wire, processed = o["starts"]
+    if processed == 0:
+        return ("packet path --rate %s, source quiet (%s): a frame on the wire at %d ms was not handed to the processor "
+                "within 3 s" % (o["rate_str"], o["class"].split("/")[1], on_wire // 10 ** 6))
+    if processed - on_wire > 100 * 10 ** 6:
+        return ("packet path --rate %s, source quiet (%s): a frame on the wire at %d ms reached the processor %d ms later "
+                "(receiving waits for the rate limiter)" % (o["rate_str"], o["class"].split("/")[1], on_wire // 10 ** 6,
+                                                            (processed - on_wire) // 10 ** 6))
     return None
 
 
@@ -117,7 +147,7 @@ def spec_chunk(o):
     return None     # the chunk-boundary observation is reported as information, see run()
 
 
-SPEC = {"lim": spec_lim, "wrap": spec_wrap, "pipe": spec_pipe, "eng": spec_eng, "e2e": spec_e2e, "chunk": spec_chunk}
+SPEC = {"lim": spec_lim, "wrap": spec_wrap, "pipe": spec_pipe, "eng": spec_eng, "rxlat": spec_rxlat, "e2e": spec_e2e, "chunk": spec_chunk}
 
 GW = "02:00:00:c1:60:02"
 
@@ -276,6 +306,81 @@ def spec_slow(o):
 SPEC["slow"] = spec_slow
 
 
+def quiet_e2e(ctx, tag="q"):
+    """`sx arp --rate 1/2s --exit-delay 300ms 10.77.0.0/31` on a quiet wire: a responder answers the first request
+    400 ms after it saw it.  The reply must be PRINTED soon after it was on the wire: the receiver must not wait for
+    the limiter (a read that times out on the quiet wire is not a probe)."""
+    import subprocess
+    import time as _t
+    exe = os.path.join(ctx.work, "sx")
+    with _build_lock:
+        if not os.path.exists(exe):
+            rc, out = verif.sh(["go", "build", "-o", exe, "."], env=verif.GOENV, cwd=verif.REPO, timeout=900)
+            if rc != 0:
+                return []
+    if not ctx.harness_build("c16"):
+        return []
+    tool = os.path.join(verif.HBIN, "c16")
+    ns = "vc15n%d%s" % (os.getpid(), tag)
+    o = {"kind": "quiet", "class": "quiet", "id": 0, "rate_str": "1/2s", "rate": 1, "per": 2 * 10 ** 9, "cmd": "arp",
+         "args": "arp -i v0 --rate 1/2s --exit-delay 300ms 10.77.0.0/31"}
+    setup = [["ip", "netns", "add", ns],
+             ["ip", "-n", ns, "link", "add", "v0", "type", "veth", "peer", "name", "v1"],
+             ["ip", "-n", ns, "link", "set", "lo", "up"], ["ip", "-n", ns, "link", "set", "v0", "up"],
+             ["ip", "-n", ns, "link", "set", "v1", "up"], ["ip", "-n", ns, "addr", "add", "10.77.0.9/24", "dev", "v0"]]
+    try:
+        for cmd in setup:
+            rc, out = verif.sh(cmd, timeout=20)
+            if rc != 0:
+                o["err"] = "cannot set up a network namespace: " + out.strip()[:200]
+                return [o]
+        _t.sleep(0.3)
+        respf = os.path.join(ctx.work, "resp%s.jsonl" % tag)
+        resp = subprocess.Popen(["ip", "netns", "exec", ns, tool, "-respond", "v1", "-ip", "any", "-after", "400ms",
+                                 "-out", respf, "-total", "12s"], stdout=subprocess.PIPE, stderr=subprocess.STDOUT,
+                                text=True, cwd=ctx.work)
+        if resp.stdout.readline().strip() != "ready":
+            o["err"] = "responder did not start"
+            resp.kill()
+            return [o]
+        pr = subprocess.Popen(["ip", "netns", "exec", ns, exe, "arp", "-i", "v0", "--rate", "1/2s", "--exit-delay", "300ms",
+                               "10.77.0.0/31"], stdout=subprocess.PIPE, stderr=subprocess.DEVNULL, text=True)
+        first = pr.stdout.readline()
+        o["printed_unix_ns"] = _t.time_ns() if first else 0
+        o["stdout"] = first.strip()
+        try:
+            pr.wait(timeout=15)
+        except subprocess.TimeoutExpired:
+            pr.kill()
+        resp.wait(timeout=20)
+        got = ctx.read_jsonl(respf) if os.path.exists(respf) else []
+        if got and got[0].get("reply_sent_unix_ns"):
+            o["reply_sent_unix_ns"], o["reply_mac"] = got[0]["reply_sent_unix_ns"], got[0]["reply_mac"]
+        else:
+            o["err"] = "the responder saw no request"
+    except Exception as e:  # noqa: BLE001
+        o["err"] = "quiet-wire run failed: %r" % (e,)
+    finally:
+        verif.sh(["ip", "netns", "del", ns], timeout=20)
+    return [o]
+
+
+def spec_quiet(o):
+    if o.get("err"):
+        return None
+    if not o["printed_unix_ns"] or o["reply_mac"] not in o["stdout"].lower():
+        return ("sx %s: the reply put on the wire 400 ms after the first probe was never printed (output %r)"
+                % (o["args"], o["stdout"][:120]))
+    lat = o["printed_unix_ns"] - o["reply_sent_unix_ns"]
+    if lat > 500 * 10 ** 6:
+        return ("sx %s on a quiet wire: the reply was printed %d ms after it was on the wire (the receiver waited for "
+                "the rate limiter)" % (o["args"], lat // 10 ** 6))
+    return None
+
+
+SPEC["quiet"] = spec_quiet
+
+
 def slow_stage(ctx, cap_s=12):
     """Rates whose per-second value is fractional (1/m, 21/20s, 41/20s, 61/20s, 1/15s, 81/20s) through the real
     newScanEngine, all in parallel, at most cap_s seconds."""
@@ -290,6 +395,7 @@ def deep_stage(ctx, with_fast=True):
     jobs = {}
     with ThreadPoolExecutor(max_workers=6) as ex:
         jobs["slow"] = ex.submit(slow_stage, ctx)
+        jobs["quiet"] = ex.submit(quiet_e2e, ctx)
         jobs["slowpkt"] = ex.submit(e2e_runs, ctx, IDX_SLOW[:1], "s")
         jobs["slowpkt2"] = ex.submit(e2e_runs, ctx, IDX_SLOW[1:], "t")
         if with_fast:
@@ -429,7 +535,15 @@ def run(ctx):
     if os.path.exists(os.path.join(verif.HBIN, "c15")):
         erows = e2e_runs(ctx, [(ctx.seed + d) % N_ARP_SPECS for d in (0, 3)] + [IDX_CHUNKS]) if quick else deep_stage(ctx)
         srows = [o for o in erows if o["kind"] == "slow"]
+        qrows = [o for o in erows if o["kind"] == "quiet"]
         erows = [o for o in erows if o["kind"] == "e2e"]
+        for o in qrows:
+            if o.get("err"):
+                ctx.skipped.append("quiet-wire e2e: " + o["err"])
+                continue
+            ctx.count("quiet:arp", ("quiet", o["printed_unix_ns"]), nontrivial=True,
+                      sample={"cmd": "sx " + o["args"], "printed_after_reply_ms": (o["printed_unix_ns"] - o["reply_sent_unix_ns"]) // 10 ** 6})
+            rows.append(o)
         for o in srows:
             ctx.count("slow:" + o["rate_str"], ("slow", o["rate_str"], o["scans"]), nontrivial=o["scans"] >= 2,
                       sample={"rate": o["rate_str"], "workers": o["workers"], "probes_started": o["scans"],
@@ -481,7 +595,7 @@ def run(ctx):
                 if o.get("err") and o["kind"] == "e2e":
                     ctx.skipped.append("e2e sx %s --rate %s: %s" % (o["cmd"], o["rate_str"], o["err"]))
             deep.sort(key=lambda o: (o["kind"], o.get("id", 0) < IDX_CHUNKS))     # packet-path evidence first
-            judge(ctx, [o for o in deep if not (o.get("err") and o["kind"] == "e2e")], a2, limit=4)
+            judge(ctx, [o for o in deep if not (o.get("err") and o["kind"] in ("e2e", "quiet"))], a2, limit=4)
     return ctx.finish(rule=RULE)
 
 
@@ -493,6 +607,11 @@ def replay(ctx, path):
     i = r["input"]
     if not ctx.harness_build("c15"):
         return 1
+    if i["kind"] == "quiet":
+        got = quiet_e2e(ctx)
+        why = spec_quiet(got[0]) if got else None
+        print("replay quiet-wire e2e: %s" % (why or (got and got[0].get("err")) or "property holds on this run"))
+        return 1 if why else 0
     if i["kind"] == "slow":
         ok, out = ctx.harness_run("c15", ["-out", "one.jsonl", "-slow", "12s", "-slowonly", i["id"]], timeout=120)
         o = ctx.read_jsonl(os.path.join(ctx.work, "one.jsonl"))[0] if ok else {"err": out[-300:]}
